@@ -740,6 +740,14 @@ func (in *Interp) callBuiltin(fr *frame, site ssa.Instruction, fn *ssa.Builtin, 
 		case AnyBlob:
 			// serialized size of the carried message: zero exactly when every field is zero
 			// (proto3); otherwise some positive length (1 stands for "non-empty")
+			// when the message type has a generated Size method, that is the length
+			if m, ok := x.Msg.(Iface); ok && m.T != nil {
+				if sz := in.prog.LookupMethod(m.T, nil, "Size"); sz != nil && sz.Blocks != nil {
+					if t, ok := in.call(fr, fr.site, sz, []Value{m.V}).(*Term); ok {
+						return t
+					}
+				}
+			}
 			return f.Ite(in.deepZero(x.Msg), f.Const(64, 0), f.Const(64, 1))
 		case Str:
 			return f.Const(64, uint64(x.Len()))
